@@ -23,7 +23,7 @@ type c05Case struct {
 func init() {
 	engine.Register(&engine.Check{
 		ID: "C05", Level: "exploration",
-		Rule:   "WKT-expressible corpus: per layout XY/XYZ/XYM/XYZM every Point (empty/1), LineString (0,2,3 points), Polygon (0..3 closed rings of 4/5 points, closing point differing in M), MultiPoint (every present/EMPTY pattern of length 0..6, thorough 7), MultiLineString (every sequence of 0..5 (thorough 6) lines of 0/2/3 points), MultiPolygon (every sequence of 0..5 (thorough 6) polygons over {EMPTY, 1 ring, 2 rings, 3 rings}), collections of 0..3 members over a 9-member menu incl. empty members and nested collections to depth 3, empty collections with a fixed layout; plus a float lattice (+-2^k for all k, +-1 ulp neighbours, 10^k and neighbours, all-ones mantissas, -0) placed in points. (a) wkt.Marshal text (each call preceded by an encode that fails after partial output) parsed by wkt.Unmarshal and by the independent reference reader equals the model bit for bit; (b) every combination of 144 spelling variants (3 cases x 3 whitespace styles x bare/parenthesised multipoint members x attached/detached suffix x 4 number notations) written by the reference writer parses with wkt.Unmarshal to the model. distinct_nontrivial = distinct (geometry, spelling) pairs with at least one coordinate Also: lines that return to their first position in X,Y only or in every ordinate, and the same positions handed to the encoder as a LinearRing (must give the LINESTRING text).",
+		Rule:   "WKT-expressible corpus: per layout XY/XYZ/XYM/XYZM every Point (empty/1), LineString (0,2,3 points), Polygon (0..3 closed rings of 4/5 points, closing point differing in M), MultiPoint (every present/EMPTY pattern of length 0..6, thorough 7), MultiLineString (every sequence of 0..5 (thorough 6) lines of 0/2/3 points), MultiPolygon (every sequence of 0..5 (thorough 6) polygons over {EMPTY, 1 ring, 2 rings, 3 rings}), collections of 0..3 members over a 9-member menu incl. empty members and nested collections to depth 3, empty collections with a fixed layout; plus a float lattice (+-2^k for all k, +-1 ulp neighbours, 10^k and neighbours, all-ones mantissas, -0) placed in points. (a) wkt.Marshal text (each call preceded by an encode that fails after partial output) parsed by wkt.Unmarshal and by the independent reference reader equals the model bit for bit; (b) every combination of 144 spelling variants (3 cases x 3 whitespace styles x bare/parenthesised multipoint members x attached/detached suffix x 4 number notations) written by the reference writer parses with wkt.Unmarshal to the model. distinct_nontrivial = distinct (geometry, spelling) pairs with at least one coordinate Also: lines that return to their first position in X,Y only or in every ordinate, lines, rings and multilinestring members whose closing position is +0 where the first is -0 (and the reverse) in one ordinate, and the same positions handed to the encoder as a LinearRing (must give the LINESTRING text).",
 		Run:    c05Run,
 		Replay: func(c *engine.Ctx, kind string, raw json.RawMessage) { c05Exec(c, decodeCase[c05Case](raw)) },
 		Assumptions: []string{
@@ -69,6 +69,22 @@ func wktCorpus(level int) []*ref.G {
 			full := ref.NewLine(ref.LineString, l, n, ref.Counter())
 			copy(full.C1[n-1], full.C1[0])
 			simple = append(simple, loose, full)
+			// closing position equal to the first one as a number but not as a bit pattern:
+			// +0 at the start and -0 at the end of the same ordinate, and the other way round
+			for k := 0; k < l.Stride(); k++ {
+				for _, neg := range []bool{false, true} {
+					z := ref.NewLine(ref.LineString, l, n, ref.Counter())
+					copy(z.C1[n-1], z.C1[0])
+					z.C1[0][k], z.C1[n-1][k] = 0, ref.F(math.Copysign(0, -1))
+					if neg {
+						z.C1[0][k], z.C1[n-1][k] = z.C1[n-1][k], z.C1[0][k]
+					}
+					simple = append(simple, z)
+					ring := append([]ref.C{}, z.C1...)
+					simple = append(simple, &ref.G{Kind: ref.Polygon, Layout: l, C2: [][]ref.C{ring}},
+						&ref.G{Kind: ref.MultiLineString, Layout: l, C2: [][]ref.C{ring, ring}})
+				}
+			}
 		}
 		for _, rs := range ref.Seqs([]int{4, 5}, 3) {
 			simple = append(simple, &ref.G{Kind: ref.Polygon, Layout: l, C2: wktPolygon(l, rs, ref.Counter())})
